@@ -6,11 +6,21 @@ PID = "C04"
 PROP_V = ["Props/Properties_C04.v"]
 GEN_MODULES = ["Consts", "Sites"]
 REPLAY_HINT = "VRT_SEED=<seed> VRT_MODE=<m> _work/h/cv_mix (or waitn_mix)"
-PARTIAL = []
+PARTIAL = ["C04_no_stuck is proved as C04_no_stuck_partial (in a quiescent world a thread asleep in nsync_cv_wait is still on the cv queue, or its "
+           "record was taken by a waker that has finished with it while its semaphore is empty) + C04_waker_moves; the full statement "
+           "(C04_no_stuck_full, kept as a Definition) additionally needs the per-thread semaphore post accounting, which the abstract mutex "
+           "of CvModel does not carry (the semaphore is shared with the thread's mutex sleeps), and the mutex's obligation to wake "
+           "transferred waiters (C02 / MuModel); 'every waiter without a deadline finishes' is decided by the stuck detector",
+           "the mutex inside CvModel is abstract (atomic lock field, environment actors for the queue hand-over); MuModel / MuWaitModel are its models"]
+TRUSTED_BASE = ["Model/CvModel.v control skeleton (cv.c: wait with deadline/cancel incl. the generic-lock path, signal, broadcast, wake_waiters with "
+                "the transfer to the mutex queue, nsync_wait_n's cv callbacks): hand-written, validated by lock-step replay with cv-queue and "
+                "mutex-queue snapshots (replay/cv_replay.ml)"]
 
 
 def run(tier, seed):
+    import mu_common
     res = {"violations": [], "broken": [], "coverage": {}}
+    tie = mu_common.tie(res, "cv_replay", "CvModel", [("cv_mix", {"VRT_MODE": m}, 150, 1500) for m in (0, 1, 2, 3)], tier, seed)
     specs = [("cv_mix", {"VRT_MODE": 0}, 2000, 40000), ("cv_mix", {"VRT_MODE": 1}, 1500, 30000), ("cv_mix", {"VRT_MODE": 2}, 1000, 20000),
              ("cv_mix", {"VRT_MODE": 3}, 1500, 30000), ("cv_mix", {"VRT_MODE": 4}, 3000, 60000), ("waitn_mix", {"VRT_KIND": 2}, 1500, 30000),
              ("cv_mix", {"VRT_MODE": 0}, 800, 15000, "binary"), ("cv_mix", {"VRT_PLAINPM": 40}, 1500, 30000), ("muwait_mix", {"VRT_MODE": 3}, 2500, 50000)]
@@ -19,5 +29,6 @@ def run(tier, seed):
                    "section (every waiter without deadline must finish: a lost or swallowed wake-up ends stuck), readers + ONE signal, signal "
                    "under a read lock, and the single-waiter mode in which a wake-up issued in time must be reported as 0 whatever the clock "
                    "and the note do afterwards; waitn_mix on cvs; non-trivial = runs with semaphore sleeps")
+    cov.update(tie)
     res["coverage"] = cov
     return res
